@@ -5,6 +5,7 @@
    toks <keep_all 0/1> <keep file> <tokens>         tokens = "." or k:codehex;k:codehex;... (k = class number
         0 space 1 newline 2 comment 3 string 4 number 5 name 6 label 7 keyword 8 symbol): writer model only
         -> OK <yielded chunks> | ERR <name>
+   cart <keep_all 0/1> <keep file> <source chunks>  lexer model, writer model, __lua__ text of the .p8 writer -> OK <hex> | ERR
    fuses <prevhex> <codehex>                        -> 0 | 1 *)
 let chunks_of s = if s = "." then [] else List.map bytes_of_hex (String.split_on_char '|' s)
 let str_of_chunks cs = match cs with [] -> "." | _ -> String.concat "|" (List.map hex_of_bytes cs)
@@ -18,6 +19,10 @@ let handle fields =
   | ["min"; ka; kf; cs] ->
     (match model_lex (chunks_of cs) with
      | Ok ts -> answer (minify (cfg_of ka kf) ts)
+     | Err e -> "ERR " ^ err_name e)
+  | ["cart"; ka; kf; cs] ->
+    (match luamin_cart_text (cfg_of ka kf) (chunks_of cs) with
+     | Ok t -> "OK " ^ hex_of_bytes t
      | Err e -> "ERR " ^ err_name e)
   | ["toks"; ka; kf; ts] ->
     let ts = if ts = "." then [] else
